@@ -64,14 +64,18 @@ THEOREMS = [
     "BeyondVerif.C13.tdm_redump_total_partial",
     "BeyondVerif.C13.stamp_roundtrip_same_scale",
     "BeyondVerif.C13.stamp_instant_of_converting",
-    "BeyondVerif.C13.stamp_instant_roundtrip_partial",
+    "BeyondVerif.C13.stamp_instant_iff",
+    "BeyondVerif.C13.writers_convert_scale",
+    "BeyondVerif.C13.stamp_instant_roundtrip",
+    "BeyondVerif.C13.oem_dump_any_form",
     "BeyondVerif.C13.man_ignition_tables",
     "BeyondVerif.C13.thrust_window_roundtrip",
     "BeyondVerif.C13.date_attr_shifts_window",
     "BeyondVerif.C13.ud_prefix_tables",
     "BeyondVerif.C13.ud_key_roundtrip",
+    "BeyondVerif.C13W.mixed_scale_instant_ok",
     "BeyondVerif.C13W.mixed_scale_moves_instant",
-    "BeyondVerif.C13W.oem_xml_noncartesian_form",
+    "BeyondVerif.C13W.oem_xml_noncartesian_form_ok",
     "BeyondVerif.C13W.opm_keplerian_maneuver_lost",
     "BeyondVerif.C13W.man_stop_dated_ok",
     "BeyondVerif.C13W.oem_xml_one_point_ok",
@@ -98,16 +102,16 @@ LEVEL_TEXT = ("Lean theorems over a structural model of beyond/io/ccsds (element
               "tdm_xml_load_dump_id, tdm_kvn_load_dump_id (participants numbered in order of first appearance, PATH, split by path; the KVN metadata dict never "
               "reset between segments). From them: kvn_xml_agree for the four types (opm_/omm_/oem_/tdm_kvn_xml_agree) and redump_total (what either reader "
               "returns is accepted by both writers and is a fixed point of dump-then-load: opm_/omm_/oem_redump_total; tdm_redump_total_partial for a single "
-              "path). Dates: a secondary date labelled in the message's TIME_SYSTEM comes back identical, the instant of any date is kept iff the writer "
-              "converts or the clocks agree (stamp_*); the thrust window [start, stop) of a continuous maneuver dated by start / median / stop comes back "
+              "path). Dates: every date of a message is converted to its TIME_SYSTEM before printing (regenerated: in_scale), so a date labelled like the "
+              "message comes back identical and a date labelled otherwise comes back as the same instant (stamp_roundtrip_same_scale, stamp_instant_roundtrip, "
+              "stamp_instant_iff); both OEM writers accept points in any form (oem_dump_any_form); the thrust window [start, stop) of a continuous maneuver dated by start / median / stop comes back "
               "(thrust_window_roundtrip). Tables regenerated from the source on every run and checked by `decide`: covariance key matrix, OEM row keys, the ten "
               "frames, covariance and maneuver frame aliases, written units, which groups each reader wraps, the date attribute printed as MAN_EPOCH_IGNITION, the "
               "readers' date_pos, whether the writers convert time scales / forms / Keplerian maneuvers. Exact differential correspondence (message tokens at "
               "written precision, error kinds, clock readings) of the compiled model with the real dumps/loads for all four types x both encodings x re-dump.")
 LEVEL_NOTE = ("whole-message theorems hold for well-formed objects: non-empty texts, one of the ten Earth-centred frames, covariance / maneuver frames own, QSW or TNW, "
-              "distinct epochs inside an ephemeris, at most nine participants per path, one time scale per message; five clauses are false of the current code and "
-              "kept as `_partial` theorems + kernel-checked counter-witnesses (open findings: multi-path TDM reloads as a list dumps refuses; dates labelled in "
-              "another scale than the message move by the scale offset — OPM maneuvers, OEM points, TDM observations; OEM XML writer refuses non-cartesian points; "
+              "distinct epochs inside an ephemeris, at most nine participants per path, one time scale per message in the structural model (other labels: Model/CcsdsExt.lean); two clauses are false of the current code and "
+              "kept as a `_partial` theorem / kernel-checked counter-witness (open findings: multi-path TDM reloads as a list dumps refuses; "
               "Keplerian maneuvers not written); float formatting/parsing, Date arithmetic, lxml and the splitting of KVN text into tokens are parameters of the "
               "model (exercised by the correspondence and the oracle); Lean kernel + propext/Classical.choice/Quot.sound")
 TECHNIQUE = ("Lean 4 proof by induction over line / sibling / segment lists + kernel `decide` on tables regenerated from the Python AST and on concrete messages; "
@@ -137,8 +141,9 @@ NOT_COVERED = [
     "interplanetary centres (CENTER_NAME other than EARTH), OMM ephemeris type / classification (XML writes constants 0 / U), continuous maneuvers shorter than 0.5 ms (reload as impulsive), measures without a path (PVT: X, Y, ... are silently not written)",
     "string-level corner cases: texts containing '=', '[', 'COMMENT', leading/trailing blanks or that are empty/whitespace-only",
     "reader-only notations (default units, RTN, day-of-year dates, dates without fraction, comment lines, acceleration columns, theory SGP4, missing EPHEMERIS_TYPE / CLASSIFICATION_TYPE, centre in lower case) are checked by the oracle "
-    "(`variants`: same object decoded, re-dump possible) but not modelled; what RANGE_UNITS = s means is outside the statement (lead: tdm.py multiplies seconds by km * c with c in m/s, 1000 times too large)",
-    "clauses false of the current code (open findings, proposed fixes not applied): C13-tdm-multi-path-reloads-as-list; C13-mixed-scale-epoch-opm-maneuver / -oem-point / -tdm-observation; C13-oem-xml-dump-noncartesian-form; C13-opm-keplerian-maneuver",
+    "(`variants`: same object decoded, re-dump possible) but not modelled; what RANGE_UNITS = s means is outside the statement: the writers never produce it, so no round trip of an object beyond wrote is involved, and the Range read from such a foreign TDM "
+    "does round-trip through dumps/loads as it was read (lead for the maintainers, not a C13 finding: tdm.py multiplies seconds by km * c with c in m/s, 1000 times too large)",
+    "clauses false of the current code (open findings, proposed fixes not applied): C13-tdm-multi-path-reloads-as-list; C13-opm-keplerian-maneuver",
 ]
 OPEN = [
     "generalise CovWf / OpmWf to frame tags that are names of other inertial frames (alias tables are the identity on them)",
@@ -1063,11 +1068,11 @@ def witness_specs():
                   dict(man("EME2000"), kind="C", dur_ms=500, date_pos="start"), dict(man("teme"), comment="")]),
         # user-defined names with underscores, digits, lower case (CCSDS examples: EARTH_MODEL)
         opm(ud={"EARTH_MODEL": "WGS-84", "TANK_1_MASS": "12.5", "TANK_1": "x y", "foo_bar": "1"}), omm(ud={"EARTH_MODEL": "WGS-84", "TANK_2_MASS": "7.25"}),
-        # open findings: dates labelled in another scale than the message (TT - UTC = 32.184 s + leap seconds, GPS - TAI = -19 s)
+        # (fixed aa1842c) dates labelled in another scale than the message (TT - UTC = 32.184 s + leap seconds, GPS - TAI = -19 s)
         opm(mans=[dict(man(None), scale="TT")]),
         {"type": "oem", "segs": [seg([pt(0), dict(pt(5), scale="TT"), pt(10)])], "as_list": False},
         tdm([ob("Range", 0), dict(ob("Range", 12), scale="GPS")]),
-        # open finding: points kept in a non-cartesian form
+        # (fixed 1daca9c) points kept in a non-cartesian form
         {"type": "oem", "segs": [dict(seg([pt(0), pt(1)]), form="keplerian")], "as_list": False},
         # open finding: Keplerian maneuvers
         opm(mans=[dict(man(None), kind="KI", dkep={"da": 1000.0, "di": 0.0, "dOmega": 0.0})]),
